@@ -82,7 +82,7 @@ var Actions = []Action{
 	{"loop", `{ for (i = 0; i < 2500; i++) x += i; print "loop", x }`, "obs"},
 	// number <-> string conversions of the same few numbers in every run (a conversion remembered
 	// from an earlier run, or made under an earlier run's CONVFMT/OFMT, shows here)
-	{"numstr", `{ nsv = 3.14159265; nsw = nsv ""; nsA[nsv] = 1; for (nsk in nsA) print "numstr", nsw, nsk, (0.1 + 0.2) "", 1e6 / 7 ""; delete nsA }`, "obs"},
+	{"numstr", `{ nsv = 3.14159265; nsw0 = nsv ""; nsa = (0.1 + 0.2) ""; nsb = 1e6 / 7 ""; nsA[nsv] = 1; for (nsk in nsA) nsk2 = nsk; delete nsA; nsw = nsv ""; print "numstr", nsw0, nsa, nsb, nsk2, nsw }`, "obs"},
 	{"pnum", `print "pnum", 3.14159265, 2 / 3, 100 / 3`, "obs"},
 	{"strnum", `print "strnum", "3.0" + 0, "1e3" * 1, " 12 " + 1, ("10" < "9"), ("10" + 0 < "9" + 0)`, "obs"},
 	// --- endings
@@ -148,6 +148,9 @@ var Actions = []Action{
 	{"imoff", `INPUTMODE = ""`, "vars"},
 	{"omcsv", `OUTPUTMODE = "csv"`, "vars"},
 	{"omoff", `OUTPUTMODE = ""`, "vars"},
+	// seeds the generator from the clock (nothing is printed: the value is not reproducible);
+	// only ever part of a history, never of a probe
+	{"srandclock", `srand()`, "vars"},
 	{"glob", `{ cnt++; acc = acc "x"; last = "L" NR; seen["a"] = NR; seen[1, 2] = 1 }`, "vars"},
 	{"delarr", `delete seen`, "vars"},
 	{"argc", `ARGC = 1`, "vars"},
